@@ -1,4 +1,5 @@
 # Single-edit mutants of /repo used to validate the monitors (see DESIGN.md 4.3).
+import os
 # expect: "caught" (default) | "equivalent" (documented equivalent mutant, expected to stay silent)
 MUTANTS = []
 def M(prop, name, file, old, new, **kw):
@@ -201,6 +202,61 @@ WB("C08", "bitword/bitword.go", "func (w *bitWord) FromStrs(strs []string) [][]b
 WB("C16", "sigbits/firstdiff.go", "func FirstDiffBits(keys []string) []int32 {", "keys", '""')
 WB("C16", "sigbits/sigbits.go", "func New(keys []string) *SigBits {", "keys", '""')
 WB("C17", "sigbits/sharding.go", "func ShardByPrefix(keys []string, maxSize int32) ([]int32, []int32) {", "keys", '""')
+
+# ---- TS: "store into the first element of a slice ARGUMENT and put the old value back before doing anything else" - what a
+# sentinel, an in-place normalisation or a sort-and-restore does. Every result and the argument after the call are as before;
+# only a caller whose argument lives in memory that cannot be written (a mapped file) sees it (DESIGN 2.9c, props/ro.go).
+def TS(prop, file, sig, param, zero="0", pkg=None):
+    fn = sig.split("(")[0].replace("func ", "").strip()
+    if sig.startswith("func ("):
+        fn = sig.split(") ", 1)[1].split("(")[0]
+    pkg = pkg or file.split("/")[0]
+    body = "\n\tif len(%s) > 0 {\n\t\tverifT := %s[0]\n\t\t%s[0] = %s\n\t\tverifSinkN++\n\t\t%s[0] = verifT\n\t}\n" % (param, param, param, zero, param)
+    MUTANTS.append(dict(prop=prop, name="%s-ts-%s-%s" % (prop, fn, param), edits=[
+        (file, sig + "\n", sig + body),
+        (os.path.dirname(file) + "/verif_ts_sink.go", "", "package %s\n\nvar verifSinkN int\n" % pkg)]))
+
+for (_p, _f, _s, _a, *_z) in [
+    ("C01", "bitmap/rank.go", "func IndexRank64(words []uint64, opts ...bool) []int32 {", "words"),
+    ("C01", "bitmap/rank.go", "func IndexRank128(words []uint64) []int32 {", "words"),
+    ("C01", "bitmap/rank.go", "func Rank128(words []uint64, rindex []int32, i int32) (int32, int32) {", "words"),
+    ("C01", "bitmap/rank.go", "func Rank128(words []uint64, rindex []int32, i int32) (int32, int32) {", "rindex"),
+    ("C01", "bitmap/rank.go", "func Rank64(words []uint64, rindex []int32, i int32) (int32, int32) {", "words"),
+    ("C01", "bitmap/rank.go", "func Rank64(words []uint64, rindex []int32, i int32) (int32, int32) {", "rindex"),
+    ("C02", "bitmap/select.go", "func IndexSelect32(words []uint64) []int32 {", "words"),
+    ("C02", "bitmap/select.go", "func IndexSelect32R64(words []uint64) ([]int32, []int32) {", "words"),
+    ("C02", "bitmap/select.go", "func Select32(words []uint64, selectIndex []int32, i int32) (int32, int32) {", "words"),
+    ("C02", "bitmap/select.go", "func Select32(words []uint64, selectIndex []int32, i int32) (int32, int32) {", "selectIndex"),
+    ("C02", "bitmap/select.go", "func Select32R64(words []uint64, selectIndex, rankIndex []int32, i int32) (int32, int32) {", "words"),
+    ("C02", "bitmap/select.go", "func Select32R64(words []uint64, selectIndex, rankIndex []int32, i int32) (int32, int32) {", "selectIndex"),
+    ("C02", "bitmap/select.go", "func Select32R64(words []uint64, selectIndex, rankIndex []int32, i int32) (int32, int32) {", "rankIndex"),
+    ("C13", "bitmap/next.go", "func NextOne(bm []uint64, i, end int32) int32 {", "bm"),
+    ("C13", "bitmap/next.go", "func PrevOne(bm []uint64, i, end int32) int32 {", "bm"),
+    ("C14", "bitmap/slice.go", "func Slice(words []uint64, from, to int32) []uint64 {", "words"),
+    ("C14", "bitmap/get.go", "func Getw(bm []uint64, i int32, w int32) uint64 {", "bm"),
+    ("C14", "bitmap/join.go", "func Join(subs []uint64, size int32) []uint64 {", "subs"),
+    ("C12", "bitmap/toarray.go", "func ToArray(words []uint64) []int32 {", "words"),
+    ("C12", "bitmap/get.go", "func Get(bm []uint64, i int32) uint64 {", "bm"),
+    ("C12", "bitmap/get.go", "func SafeGet1(bm []uint64, i int32) uint64 {", "bm"),
+    ("C12", "bitmap/of.go", "func Of(bitPositions []int32, opts ...int32) []uint64 {", "bitPositions"),
+    ("C12", "bitmap/ofmany.go", "func OfMany(subs [][]int32, sizes []int32) []uint64 {", "sizes"),
+    ("C12", "bitmap/ofmany.go", "func OfMany(subs [][]int32, sizes []int32) []uint64 {", "subs", "nil"),
+    ("C12", "bitmap/builder.go", "func (b *Builder) Extend(bitPositions []int32, size int32) {", "bitPositions"),
+    ("C04", "bmtree/decode.go", "func Decode(bitmapSize int32, bm []uint64) []uint64 {", "bm"),
+    ("C11", "bmtree/newpath.go", "func PathsOf(keys []string, frombit int32, height int32, dedup bool) []uint64 {", "keys", '""'),
+    ("C09", "bitstr/bitstr.go", "func Cmp(a, b []byte) int {", "a"),
+    ("C09", "bitstr/bitstr.go", "func Cmp(a, b []byte) int {", "b"),
+    ("C09", "bitstr/bitstr.go", "func CmpUpto(a, b []byte) int {", "a"),
+    ("C09", "bitstr/bitstr.go", "func CmpUpto(a, b []byte) int {", "b"),
+    ("C09", "bitstr/bitstr.go", "func Len(bs []byte) int32 {", "bs"),
+    ("C08", "bitword/bitword.go", "func (w *bitWord) ToStr(bs []byte) string {", "bs"),
+    ("C08", "bitword/bitword.go", "func (w *bitWord) ToStrs(bytesslice [][]byte) []string {", "bytesslice", "nil"),
+    ("C08", "bitword/bitword.go", "func (w *bitWord) FromStrs(strs []string) [][]byte {", "strs", '""'),
+    ("C16", "sigbits/firstdiff.go", "func FirstDiffBits(keys []string) []int32 {", "keys", '""'),
+    ("C16", "sigbits/sigbits.go", "func New(keys []string) *SigBits {", "keys", '""'),
+    ("C17", "sigbits/sharding.go", "func ShardByPrefix(keys []string, maxSize int32) ([]int32, []int32) {", "keys", '""'),
+]:
+    TS(_p, _f, _s, _a, *(_z or ["0"]))
 
 # ---- LZ: a package table that is no longer filled in init() but lazily by ONE family of functions only; every other
 # function that reads the table answers wrongly when it is called first in a process (cold-order processes, 2.9b)
